@@ -742,9 +742,9 @@ fn generate(ctx: &Ctx) {
     (G_CLAIMS, "claims (iss x vp.holder x jti/vp.id), complete"),
     (G_MISC, "misc (aud x custom x credentials x shape x properties), complete"),
   ];
+  parts.push((G_DATES | G_CLAIMS, "dates x claims, complete"));
+  parts.push((G_CLAIMS | G_MISC, "claims x misc, complete"));
   if ctx.thorough() {
-    parts.push((G_DATES | G_CLAIMS, "dates x claims, complete"));
-    parts.push((G_CLAIMS | G_MISC, "claims x misc, complete"));
     parts.push((G_BIND | G_CLAIMS, "binding core x claims, complete"));
   }
   for (g, name) in parts {
